@@ -953,4 +953,67 @@ theorem C37_flow (uenv : Env) (cenv : CEnv) (hl : CEnvLaws cenv) (cfg : Cfg) (ke
     rw [this] at hs
     exact hs
 
+/-! ## non-vacuity: the hypotheses are satisfiable on the shipped configuration, and each accepting branch is reachable -/
+
+/-- a decidable sufficient condition for `AllowOK` of one entry: `scheme://authority` with a plain authority that the
+browser's host and port states accept -/
+def entryOK (o : Str) : Bool :=
+  !o.contains '%' &&
+  Gen.Pkce.returnToSchemes.any (fun s =>
+    (s ++ sColonSlashSlash).isPrefixOf o &&
+      (let n := o.drop (s.length + 3)
+       n.all (fun c => decide (0x20 < c.toNat) && c != '\\' && !isAuthEnd c && c != '@' && c != '[' && c != ']') &&
+         (match hostPort s [] [] (n.takeWhile (· != ':')) (afterColon n) [] with | .ok _ => true | _ => false)))
+
+theorem entryOK_sound (base : Url) (o : Str) (h : entryOK o = true) : '%' ∉ o ∧ ∃ uo, parse base o = .ok uo := by
+  unfold entryOK at h
+  simp only [Bool.and_eq_true, Bool.not_eq_true', List.any_eq_true] at h
+  obtain ⟨hpct, s, hs, hpre, hall, hok⟩ := h
+  refine ⟨by simpa using hpct, ?_⟩
+  obtain ⟨n, hn⟩ := List.isPrefixOf_iff_prefix.1 hpre
+  have hdrop : o.drop (s.length + 3) = n := by
+    rw [← hn]
+    have : (s ++ sColonSlashSlash).length = s.length + 3 := by simp [sCSS]
+    rw [← this, List.drop_left]
+  rw [hdrop] at hall hok
+  rw [List.all_eq_true] at hall
+  have hc : ∀ c ∈ n, (0x20 < c.toNat ∧ c ≠ '\\') ∧ isAuthEnd c = false ∧ c ≠ '@' ∧ c ≠ '[' ∧ c ≠ ']' := by
+    intro c hcm
+    have := hall c hcm
+    simp only [Bool.and_eq_true, decide_eq_true_eq, bne_iff_ne, ne_eq, Bool.not_eq_true'] at this
+    obtain ⟨⟨⟨⟨⟨a, b⟩, d⟩, e⟩, f⟩, g⟩ := this
+    exact ⟨⟨a, b⟩, d, e, f, g⟩
+  rw [← hn, parse_scheme_authority base s n hs (fun c hcm => (hc c hcm).1) (fun c hcm => (hc c hcm).2.1)
+    (fun hm => (hc _ hm).2.2.1 rfl) (fun hm => (hc _ hm).2.2.2.1 rfl) (fun hm => (hc _ hm).2.2.2.2 rfl)]
+  split at hok
+  · rename_i uo huo; exact ⟨uo, huo⟩
+  · cases hok
+
+/-- the shipped default allow-list satisfies the hypothesis of `C37_return_to` / `C37_flow`, for every base URL -/
+theorem allowOK_default (base : Url) : AllowOK base Gen.Pkce.defaultAllowedReturnOrigins := by
+  intro o ho
+  have : Gen.Pkce.defaultAllowedReturnOrigins.all entryOK = true := by decide
+  exact entryOK_sound base o (List.all_eq_true.1 this o ho)
+
+def envTrue : Env := ⟨fun _ => true, fun _ => true⟩
+
+deriving instance DecidableEq for Except
+
+example : PrefixOK "/vgi".toList := by
+  right
+  refine ⟨⟨_, rfl, by intro r h; cases h⟩, by decide, by decide⟩
+example : PrefixOK [] := Or.inl rfl
+
+-- both accepting branches of `_validate_return_to` are reachable, and the three reported inputs are refused
+example : validateReturnTo envTrue "https://cupola.query-farm.services/x?y#z".toList Gen.Pkce.defaultAllowedReturnOrigins
+    = .ok "https://cupola.query-farm.services/x?y#z".toList := by decide
+example : validateReturnTo envTrue "http://LocalHost:5173/cb".toList [] = .ok "http://LocalHost:5173/cb".toList := by decide
+example : validateReturnTo envTrue "https://evil.com\\@cupola.query-farm.services/".toList Gen.Pkce.defaultAllowedReturnOrigins
+    = .ok [] := by decide
+example : validateReturnTo envTrue "https://cupola.query-farm.services:8443/".toList Gen.Pkce.defaultAllowedReturnOrigins
+    = .ok [] := by decide
+example : validateOriginalUrl envTrue "/\\evil.com".toList [] = .ok ['/'] := by decide
+example : validateOriginalUrl envTrue "/vgi/describe?a=b".toList "/vgi".toList = .ok "/vgi/describe?a=b".toList := by decide
+example : validateOriginalUrl envTrue "/vgi/../../x".toList "/vgi".toList = .ok "/vgi".toList := by decide
+
 end VgiVerif.C37
